@@ -62,7 +62,7 @@ Qed.
 Example C01_nonvacuous :
   let f := utf8_encode [102;110;32;102;40;41;123;105;110;102;111;33;40;34;91;114;101;102;58;32;55;93;32;97;34;41;59;105;110;102;111;33;40;34;98;34;41;59;125] in
   let rc := mkRunCfg (mkConfig false [([108;111;103], [105;110;102;111])]) true in
-  let o := mkOracle None None (fun _ => false) (fun _ => false) (fun _ => FNone) false in
+  let o := mkOracle None None (fun _ => false) (fun _ => false) (fun _ => FNone) LkOk in
   map id3 (ro_ids (edit rc [f] LAbsent o)) = [8] /\ ro_exit (edit rc [f] LAbsent o) = XOk.
 Proof. vm_compute. split; reflexivity. Qed.
 
